@@ -324,8 +324,6 @@ Section Keys.
   Qed.
 
   (* per-asset totals *)
-  Definition asset_total (b : N) (l : list secrets) : Z :=
-    isum (map (fun s => if N.eqb b (s_asset s) then s_value s else 0) l).
   Definition out_total (b : N) (outs : list txout) : Z :=
     isum (map (fun o => match o_asset o, o_value o with AExp a, VExp v => if N.eqb b a then v else 0 | _, _ => 0 end) outs).
   Lemma out_total_rel b outs news osecs : Forall3 out_rel outs news osecs -> asset_total b (map fst osecs) = out_total b outs.
@@ -333,16 +331,6 @@ Section Keys.
     unfold asset_total, out_total. induction 1 as [|o o' s lo lo' ls (a & v & A & V & SA & SV & _) F IH]; cbn [map isum fold_right].
     - reflexivity.
     - fold isum in *. unfold isum in IH. rewrite IH, A, V, SA, SV. reflexivity.
-  Qed.
-  Lemma zsum_H_total b l : zsum (map (fun s => coeff (scommit s) (kH b)) l) = (asset_total b l) mod qn.
-  Proof.
-    unfold asset_total. rewrite zsum_isum.
-    enough (E : eqn (isum (map (fun s => coeff (scommit s) (kH b)) l))
-                    (isum (map (fun s => if N.eqb b (s_asset s) then s_value s else 0) l))) by exact E.
-    induction l as [|s l IH]; cbn [map isum fold_right]. - reflexivity.
-    - fold (isum (map (fun s => coeff (scommit s) (kH b)) l)).
-      fold (isum (map (fun s => if N.eqb b (s_asset s) then s_value s else 0) l)).
-      rewrite IH, coeff_scommit_H. destruct (N.eqb b (s_asset s)); [rewrite mod_eqn|]; reflexivity.
   Qed.
   Lemma zsum_G_total l : zsum (map (fun s => coeff (scommit s) kG) l) = zsum (map svb l).
   Proof. f_equal. apply map_ext. intro s. apply coeff_scommit_G. Qed.
